@@ -1945,7 +1945,7 @@ func (ls *LState) Status(th *LState) string {
 		status = "dead"
 	} else if ls.G.CurrentThread == th {
 		status = "running"
-	} else if ls.Parent == th {
+	} else if th.Parent != nil {
 		status = "normal"
 	}
 	return status
@@ -1973,6 +1973,9 @@ func (ls *LState) Resume(th *LState, fn *LFunction, args ...LValue) (ResumeState
 	}
 	if th.Dead {
 		return ResumeError, newApiErrorS(ApiErrorRun, "can not resume a dead thread"), nil
+	}
+	if th.Parent != nil {
+		return ResumeError, newApiErrorS(ApiErrorRun, "can not resume a normal thread"), nil
 	}
 	th.Parent = ls
 	ls.G.CurrentThread = th
